@@ -61,6 +61,56 @@ CHECKS = {
             "those call sites for the schemas used; determinism checked over repeated/populated/sanitizer runs.",
             "single fault per run; close()/fsync failures and faults in the input path are outside the property",
             "DESIGN.md section 3, C20"),
+    "C01": ("exploration",
+            "offline comparison of the whole pre-filled arena after scripted encodes with an independent python encoder; "
+            "generated drivers under ASan+UBSan",
+            "For the covering corpus and seeded random schemas sbeppc generates headers; generated drivers encode random "
+            "value trees in four forms (named, by-tag reversed, cursor, cursor+by-tag) into a pattern-filled arena which "
+            "is compared byte for byte with the pattern overlaid by the reference image (so a symmetric setter/getter "
+            "error cannot hide and any stray write shows). Held on the schemas, scripts and configurations explored.",
+            "generator domain of DESIGN 2.2 (unsigned level headers, ids/block lengths representable in header members, depth <= 3); the python reference model is the trusted oracle; g++12/clang++14",
+            "DESIGN.md section 3, C01"),
+    "C02": ("exploration",
+            "offline comparison of a canonical value dump read four ways (named, get_by_tag, cursor, cursor+tag) from "
+            "images produced by an independent python encoder; exact-size heap copies under ASan",
+            "Every reachable value (fields, composite members, arrays, enums, sets, constants, group sizes, entries, data) "
+            "of images the python encoder produced is read back through the generated accessors and compared bit-exactly "
+            "(NaN payloads included) for both byte orders and several compiler/standard configurations.",
+            "generator domain of DESIGN 2.2 (unsigned level headers, ids/block lengths representable in header members, depth <= 3); the python reference model is the trusted oracle; g++12/clang++14; the constexpr leg of the property is not exercised by this check",
+            "DESIGN.md section 3, C02"),
+    "C03": ("exploration",
+            "decode dumps (random access, cursor, recording visitor) and size_bytes on reference images whose levels "
+            "carry independently inflated wire block lengths",
+            "Reference images simulate newer schema versions: root block and every group occurrence get their own extra "
+            "block length; values, entry positions, sizes, final cursor position and visit events must match the wire "
+            "geometry for all three access paths.",
+            "generator domain of DESIGN 2.2 (unsigned level headers, ids/block lengths representable in header members, depth <= 3); the python reference model is the trusted oracle; g++12/clang++14; only well-formed extensions",
+            "DESIGN.md section 3, C03"),
+    "C05": ("exploration",
+            "size observations (run-time size_bytes of every view, cursor size, trait-level formulas) compared with the "
+            "length of the reference image; UBSan on header-only views with products up to 2^62",
+            "All size computations are printed by the driver and compared with sizes derived from the reference image; "
+            "integer-promotion behaviour is exercised with numInGroup x blockLength products beyond 2^16/2^31/2^32 for "
+            "all 16 dimension type pairs.",
+            "generator domain of DESIGN 2.2 (unsigned level headers, ids/block lengths representable in header members, depth <= 3); the python reference model is the trusted oracle; g++12/clang++14; products limited to 2^62 so that address+size is representable",
+            "DESIGN.md section 3, C05"),
+    "C17": ("exploration",
+            "arena comparison after fill_message_header / fill_group_header on pattern-filled buffers against reference "
+            "header images; returned view address and size",
+            "Header fillers are run for every message and every group level of corpus schemas that vary the header "
+            "composites (all unsigned widths, member order, gaps, extra/ref/optional members, counters) and of random "
+            "schemas, with numInGroup in {0,1,2,max,random}; all bytes outside the identifying members must keep the "
+            "pattern.",
+            "generator domain of DESIGN 2.2 (unsigned level headers, ids/block lengths representable in header members, depth <= 3); the python reference model is the trusted oracle; g++12/clang++14",
+            "DESIGN.md section 3, C17"),
+    "C19": ("exploration",
+            "recording visitor event log compared with the model's event sequence for every stopping point; enum/set "
+            "visit results compared with the schema",
+            "sbepp::visit/visit_children are run with a visitor that logs callback kind, the name its tag's traits give, "
+            "the value and the order, once complete and once per stop point k; the log must equal the first k model "
+            "events and nothing may follow; both visit overloads; enum (known/unknown) and set visits for every member.",
+            "generator domain of DESIGN 2.2 (unsigned level headers, ids/block lengths representable in header members, depth <= 3); the python reference model is the trusted oracle; g++12/clang++14; stop points sampled beyond 40 (quick) / 400 (thorough) callbacks",
+            "DESIGN.md section 3, C19"),
 }
 
 
